@@ -3,6 +3,7 @@ package yubiattest
 //vsym:pkg github.com/theparanoids/ysshra/attestation/yubiattest
 //vsym:entry H06_checksignature
 //vsym:entry H06_attest
+//vsym:entry H06_attest_twice
 //vsym:model github.com/theparanoids/ysshra/attestation/yubiattest.verifyPKCS1v15 m06aVerify
 //vsym:model (crypto.Hash).Available m06aAvailable
 //vsym:model (crypto.Hash).New m06aNew
@@ -10,6 +11,7 @@ package yubiattest
 //vsym:replay none
 //vsym:expect-cover C06.cs.rsa-sha1 C06.cs.rsa-sha256 C06.cs.rsa-sha384 C06.cs.rsa-sha512 C06.cs.insecure C06.cs.unsupported-algorithm C06.cs.non-rsa-key C06.attest.ok C06.attest.chain-fails C06.attest.signature-fails
 //vsym:bound H06_checksignature: the signature-algorithm label any int; public key *rsa.PublicKey, *ecdsa.PublicKey, ed25519.PublicKey or nil; to-be-signed bytes and signature 2 symbolic bytes each
+//vsym:bound H06_attest_twice: a genuine attestation followed, on the same Attestor, by a device certificate with the same issuer and serial number that does not chain to the roots
 //vsym:bound H06_attest: chain verification of the device certificate succeeds or fails (arbitrary); the signature check succeeds or fails
 //vsym:assume verifyPKCS1v15 is summarised (decided by H06_em); crypto hashes are logging models (the digest is an uninterpreted function of the written bytes); x509 chain building / validity inside (*Certificate).Verify is the standard library's: decided here is which certificate is verified, against which pool, at which time
 
@@ -197,4 +199,26 @@ func H06_attest() {
 	} else {
 		vReach("C06.attest.signature-fails")
 	}
+}
+
+// H06_attest_twice: what an Attestor accepted before must not vouch for a
+// different device certificate later.
+func H06_attest_twice() {
+	pool := x509.NewCertPool()
+	a := NewAttestorWithCAPool(pool)
+	mk := func(tag string) (*x509.Certificate, *x509.Certificate) {
+		dev := &x509.Certificate{PublicKey: &rsa.PublicKey{N: new(big.Int), E: 65537}, RawTBSCertificate: []byte(tag + "-f9"), Signature: []byte(tag),
+			SignatureAlgorithm: x509.SHA256WithRSA, SerialNumber: big.NewInt(7), RawIssuer: []byte("same-issuer"), RawSubject: []byte("same-subject"), Raw: []byte(tag)}
+		slot := &x509.Certificate{RawTBSCertificate: vNondetBytes(tag+"-tbs", 2), Signature: vNondetBytes(tag+"-sig", 2), SignatureAlgorithm: x509.SHA256WithRSA}
+		return dev, slot
+	}
+	genuine, slot1 := mk("genuine")
+	m06aChainOK, m06aVerdict = true, true
+	vAssert(a.Attest(genuine, slot1) == nil, "C06.genuine-attestation-accepted")
+	forged, slot2 := mk("forged")
+	m06aChainOK = false // the forged device certificate does not chain to the roots
+	calls := len(m06aVerifyCalls)
+	err := a.Attest(forged, slot2)
+	vAssert(err != nil, "C06.unverifiable-device-certificate-rejected")
+	vAssert(len(m06aVerifyCalls) == calls+1 && m06aVerifyCalls[calls].cert == forged, "C06.device-certificate-chain-verified")
 }
